@@ -24,13 +24,16 @@ type accCase struct {
 	Form     string `json:"form_body,omitempty"` // POST with this urlencoded body; an earlier handler has parsed the form. Query accessors read the URL's query only
 	XFF      core.B `json:"x_forwarded_for,omitempty"`
 	XRealIP  core.B `json:"x_real_ip,omitempty"`
+	Body     core.B `json:"body,omitempty"`            // request body (no form): Request().Body().Bytes() returns exactly these bytes
+	BodyLen  string `json:"declared_length,omitempty"` // exact | unknown (ContentLength -1, as for a chunked request) | none (ContentLength 0 although a body follows)
 }
 
 // cookieCase: a value written with SetCookie, sent back by a client, read with Cookie.
 type cookieCase struct {
-	Name  string `json:"name"`
-	Value core.B `json:"value"`
-	Extra bool   `json:"other_cookies,omitempty"`
+	Name  string   `json:"name"`
+	Value core.B   `json:"value"`
+	Extra bool     `json:"other_cookies,omitempty"`
+	Sib   []string `json:"related_cookie_names,omitempty"` // further cookies set in the same response, before (even index) or after (odd index) the judged one; their names are prefixes / extensions of the judged name. Every one of them is read back
 }
 
 func init() {
@@ -74,6 +77,7 @@ type accReadings struct {
 	AfterRewrite             string   // Query("rewritten") after a handler rewrote URL.RawQuery
 	AfterRewriteInt          int
 	RemoteAddr               string
+	BodyRead                 string // what Request().Body().Bytes() returned ("ERR:..." on error)
 }
 
 const (
@@ -133,6 +137,9 @@ func accOracle(c *accCase) accReadings {
 	w.Param = seg
 	w.ParamInt, w.ParamInt64 = pi(seg), pi64(seg)
 	w.ParamsLen = 2 // v and route
+	if c.Form == "" {
+		w.BodyRead = string(c.Body)
+	}
 	w.AfterSliceEdit = w.Query
 	w.AfterRewrite, w.AfterRewriteInt = "77", 77 // accessors read the request as it is now
 	// RemoteAddr: X-Real-IP if non-empty, else X-Forwarded-For if non-empty (as carried), else the connection's address without the port
@@ -239,6 +246,10 @@ func genAccCase(rng *rand.Rand) *accCase {
 		// a form body that repeats the queried names with other values
 		c.Form = "q=" + url.QueryEscape(accValues[rng.Intn(len(accValues))]) + "&q=second&lang=body&other=1"
 	}
+	if c.Form == "" && rng.Intn(5) == 0 {
+		c.Body = core.B(accValues[rng.Intn(len(accValues))] + strings.Repeat("b", []int{0, 1, 511, 512, 513, 4096}[rng.Intn(6)]))
+		c.BodyLen = []string{"exact", "unknown", "none", "unknown"}[rng.Intn(4)]
+	}
 	fw := []string{"", "", "", "10.0.0.1", "10.0.0.1, 10.0.0.2", ",", ", ,", " ", ",,", "::1", "é", "\x00"}
 	c.XFF, c.XRealIP = core.B(fw[rng.Intn(len(fw))]), core.B(fw[rng.Intn(len(fw))])
 	return c
@@ -272,6 +283,11 @@ func judgeAcc(w *core.W, c *accCase) {
 		got.ParamInt64 = ctx.ParamInt64("v")
 		got.ParamsLen = len(ctx.Params())
 		got.RemoteAddr = ctx.RemoteAddr()
+		if b, err := ctx.Request().Body().Bytes(); err != nil {
+			got.BodyRead = "ERR:" + err.Error()
+		} else {
+			got.BodyRead = string(b)
+		}
 		// state must not be carried across calls: editing a returned slice or rewriting the query (the usual
 		// rewrite-middleware pattern) is reflected by / does not disturb later reads
 		if ss := ctx.QueryStrings(n); len(ss) > 0 {
@@ -285,6 +301,21 @@ func judgeAcc(w *core.W, c *accCase) {
 	func() {
 		defer func() { pan = recover() }()
 		req := &http.Request{Method: "GET", URL: &url.URL{Path: "/p/" + string(c.Param), RawQuery: string(c.RawQuery)}, Header: http.Header{}, RemoteAddr: "192.0.2.7:4711"}
+		req.Body = http.NoBody
+		if c.Form == "" && (len(c.Body) > 0 || c.BodyLen != "") {
+			req.Method = "POST"
+			req.Body = io.NopCloser(plainReader{strings.NewReader(string(c.Body))})
+			switch c.BodyLen {
+			case "unknown":
+				req.ContentLength = -1
+				req.TransferEncoding = []string{"chunked"}
+			case "none":
+				req.ContentLength = 0
+			default:
+				req.ContentLength = int64(len(c.Body))
+			}
+			w.Count("body-read:" + c.BodyLen)
+		}
 		if c.Form != "" {
 			req.Method = "POST"
 			req.Header.Set("Content-Type", "application/x-www-form-urlencoded")
@@ -366,13 +397,27 @@ func judgeCookie(w *core.W, c *cookieCase) {
 		if c.Extra {
 			ctx.SetCookie(http.Cookie{Name: "other", Value: "o=1; x"})
 		}
+		for i, n := range c.Sib {
+			if i%2 == 0 && n != c.Name {
+				ctx.SetCookie(http.Cookie{Name: n, Value: fmt.Sprintf("sib %d/ö", i)})
+			}
+		}
 		ctx.SetCookie(http.Cookie{Name: c.Name, Value: string(c.Value), Path: "/"})
+		for i, n := range c.Sib {
+			if i%2 == 1 && n != c.Name {
+				ctx.SetCookie(http.Cookie{Name: n, Value: fmt.Sprintf("sib %d/ö", i)})
+			}
+		}
 	})
 	var got, missing string
+	sibGot := map[string]string{}
 	ran := false
 	f.Get("/get", func(ctx flamego.Context) {
 		ran = true
 		got, missing = ctx.Cookie(c.Name), ctx.Cookie("never-set")
+		for _, n := range c.Sib {
+			sibGot[n] = ctx.Cookie(n)
+		}
 		if m2 := ctx.Cookie(strings.ToUpper(c.Name) + "X"); m2 != "" {
 			missing = m2
 		}
@@ -426,6 +471,22 @@ func judgeCookie(w *core.W, c *cookieCase) {
 	if missing != "" {
 		w.Violate("cookie", c, fmt.Sprintf("a cookie that was never set reads %q", missing))
 		return
+	}
+	for i, n := range c.Sib {
+		if n == c.Name || n == "" {
+			continue
+		}
+		dup := false // a name set twice: which of the two a client sends first is the client's business
+		for j := range c.Sib {
+			dup = dup || (j != i && c.Sib[j] == n)
+		}
+		if want := fmt.Sprintf("sib %d/ö", i); !dup && sibGot[n] != want {
+			w.Violate("cookie", c, fmt.Sprintf("cookie %q set in the same response as %q: value %q read back as %q (Set-Cookie: %q)", n, c.Name, want, sibGot[n], spy.h["Set-Cookie"]))
+			return
+		}
+	}
+	if len(c.Sib) > 0 {
+		w.Count("cookie-with-related-names")
 	}
 	cls := "plain"
 	switch {
@@ -482,11 +543,16 @@ func runC18(r *core.Run) {
 				b[j] = byte(rng.Intn(256))
 			}
 		}
-		c := &cookieCase{Name: []string{"n", "sess-id", "a.b"}[rng.Intn(3)], Value: core.B(b), Extra: rng.Intn(3) == 0}
+		c := &cookieCase{Name: []string{"n", "sess-id", "a.b", "session"}[rng.Intn(4)], Value: core.B(b), Extra: rng.Intn(3) == 0}
+		if rng.Intn(4) == 0 {
+			for k := 1 + rng.Intn(3); k > 0; k-- {
+				c.Sib = append(c.Sib, []string{c.Name + "_id", c.Name + "2", c.Name[:1], c.Name + c.Name, "x" + c.Name, c.Name + "-"}[rng.Intn(6)])
+			}
+		}
 		w.Begin("cookie", c)
 		judgeCookie(w, c)
 	})
-	for _, k := range []string{"class:absent", "class:empty", "class:well-formed-int", "class:well-formed-float", "class:well-formed-bool", "class:malformed", "class:out-of-range", "class:needs-escaping", "multi-valued", "form-body-parsed-before-reading", "cookie-class:empty", "cookie-class:plain", "cookie-class:separators", "cookie-class:non-ascii-or-control"} {
+	for _, k := range []string{"class:absent", "class:empty", "class:well-formed-int", "class:well-formed-float", "class:well-formed-bool", "class:malformed", "class:out-of-range", "class:needs-escaping", "multi-valued", "form-body-parsed-before-reading", "cookie-class:empty", "cookie-class:plain", "cookie-class:separators", "cookie-class:non-ascii-or-control", "cookie-with-related-names", "body-read:unknown", "body-read:exact", "body-read:none"} {
 		r.GateCounter(k, 20)
 	}
 	r.GateCounter("cookie-single-bytes", 256)
